@@ -59,7 +59,7 @@ def repo_clean_guard():
         raise MachineryError("%s exists on disk: the harness is overlay-only" % z)
 
 
-def go_build(name, pkg, race=False, extra_overlay=None, tags="verif", test=False, skip_prefixes=()):
+def go_build(name, pkg, race=False, extra_overlay=None, tags="verif", test=False, skip_prefixes=(), goarch=None):
     """Build ./<pkg> (a main package, possibly virtual) from REPO's working tree + overlay."""
     repo_clean_guard()
     ov = write_overlay(name, extra_overlay, skip_prefixes)
@@ -75,7 +75,7 @@ def go_build(name, pkg, race=False, extra_overlay=None, tags="verif", test=False
         cmd.append("-race")
     cmd.append("./" + pkg)
     t0 = time.time()
-    r = subprocess.run(cmd, cwd=REPO, env=GOENV, stdout=subprocess.PIPE, stderr=subprocess.STDOUT, text=True)
+    r = subprocess.run(cmd, cwd=REPO, env=dict(GOENV, GOARCH=goarch, CGO_ENABLED="0") if goarch else GOENV, stdout=subprocess.PIPE, stderr=subprocess.STDOUT, text=True)
     try:
         os.remove(ov)
     except OSError:
